@@ -18,7 +18,7 @@ Definition c08_hlle_run := @hlle_run_sf Qc QcOps (fun x => qeqb x 0%F).
 Definition c08_dense (n : nat) (T : list (@triplet Qc)) : list (list Qc) :=
   mtab n n (from_triplets_fast T).
 Definition c08_local_gram (k : nat) (kern : mat Qc) (nb : nat -> nat) : list (list Qc) :=
-  mtab k k (local_centered_gram k kern nb).
+  local_centered_gram_exec k kern nb.
 Definition c08_eig_contract_b := eig_contract_b.
 Definition c08_embedding_verdict := embedding_verdict.
 (* spec clauses on an assembled matrix: 0 ok, 1 not symmetric, 2 M 1 <> mu 1 *)
